@@ -23,7 +23,7 @@ import (
 
 // C11 — cancelled or failed replication requests do not wedge later replication.
 
-var c11Points = []string{"never", "before-call", "replicator.slot.before", "replicator.slot.dequeued", "parked-fetch", "replicator.fetch.done", "replicator.entry.beforeDone", "replicator.loadend.emit", "replicator.load.registered"}
+var c11Points = []string{"never", "before-call", "replicator.slot.before", "replicator.slot.dequeued", "parked-fetch", "replicator.fetch.done", "replicator.entry.beforeDone", "replicator.loadend.emit", "replicator.load.registered", "failed-fetch"}
 
 type ReqC11 struct {
 	Heads []int  `json:"heads"` // indices into the honest entries (mod len)
@@ -163,7 +163,7 @@ func execC11(c CaseC11) *Outcome {
 		arrivals := 0
 		fired := false
 		remove := func() {}
-		if rq.Point != "never" && rq.Point != "before-call" && rq.Point != "parked-fetch" {
+		if rq.Point != "never" && rq.Point != "before-call" && rq.Point != "parked-fetch" && rq.Point != "failed-fetch" {
 			remove = world.AddHook(func(name string, subject interface{}, args []interface{}) {
 				if name != rq.Point || subject != interface{}(v.Replicator()) {
 					return
@@ -202,6 +202,22 @@ func execC11(c CaseC11) *Outcome {
 				abortedWithWork = true
 				cancel()
 				time.Sleep(200 * time.Microsecond)
+			}
+			pv.SetGate(false)
+		case "failed-fetch":
+			// the n-th block read of the request fails (I/O error, provider gone); nothing is cancelled
+			pv.SetGate(true)
+			_ = v.Sync(rctx, heads)
+			if world.WaitFor(func() bool { return len(pv.Parked()) > 0 }, 2*time.Second) {
+				for k := 1; k < rq.Nth; k++ {
+					pv.ReleaseParked(0)
+					time.Sleep(300 * time.Microsecond)
+				}
+				if world.WaitFor(func() bool { return len(pv.Parked()) > 0 }, 200*time.Millisecond) {
+					abortedWithWork = true
+					pv.FailParked(0, fmt.Errorf("simulated read failure"))
+					time.Sleep(200 * time.Microsecond)
+				}
 			}
 			pv.SetGate(false)
 		default:
